@@ -5,10 +5,48 @@ import fcntl, hashlib, json, os, random, re, subprocess, sys, time, shutil
 from concurrent.futures import ThreadPoolExecutor
 
 VERIF = os.path.dirname(os.path.dirname(os.path.abspath(__file__)))
-COQ = os.path.join(VERIF, "coq")
 WORK = os.path.join(VERIF, "work")
-REPO = "/repo"
-HARNESS_DIR = os.path.join(WORK, "target", "debug")
+# The checks registered in MANIFEST.json always run against /repo. For experiments with seeded changes the same
+# machinery can be pointed at a scratch worktree with VERIF_REPO=<dir>: everything that is derived from the
+# repository (harness build, generated Coq files, Coq build tree, evidence, replay files) then lives under
+# work/alt/<tag>/ and nothing belonging to the /repo runs is touched.
+REPO = os.path.abspath(os.environ.get("VERIF_REPO", "/repo"))
+ALT = REPO != "/repo"
+if ALT:
+    ALTDIR = os.path.join(WORK, "alt", hashlib.sha1(REPO.encode()).hexdigest()[:10])
+    COQ = os.path.join(ALTDIR, "coq")
+    HARNESS_SRC = os.path.join(ALTDIR, "harness")
+    TARGET = os.path.join(ALTDIR, "target")
+    EVIDENCE_DIR = os.path.join(ALTDIR, "evidence")
+    GEN_WORK = os.path.join(ALTDIR, "gen")
+else:
+    ALTDIR = WORK
+    COQ = os.path.join(VERIF, "coq")
+    HARNESS_SRC = os.path.join(VERIF, "harness")
+    TARGET = os.path.join(WORK, "target")
+    EVIDENCE_DIR = os.path.join(VERIF, "evidence")
+    GEN_WORK = os.path.join(WORK, "gen")
+HARNESS_DIR = os.path.join(TARGET, "debug")
+# exported so that translators (separate processes) write to the right tree
+os.environ["VERIF_REPO"] = REPO
+os.environ["VERIF_COQ_DIR"] = COQ
+os.environ["VERIF_GEN_WORK"] = GEN_WORK
+
+def prepare_alt():
+    """Copies the Coq tree (with compiled files, so the build is incremental) and the harness crate for an alternate repository."""
+    if not ALT:
+        return
+    os.makedirs(ALTDIR, exist_ok=True)
+    with Lock("coq"):
+        sh(["rsync", "-a", "--delete", os.path.join(VERIF, "coq") + "/", COQ + "/"], timeout=600)
+    sh(["rsync", "-a", "--delete", "--exclude", "target", os.path.join(VERIF, "harness") + "/", HARNESS_SRC + "/"], timeout=600)
+    for fn in ("Cargo.toml",):
+        fp = os.path.join(HARNESS_SRC, fn)
+        txt = open(fp).read().replace('path = "/repo/', 'path = "%s/' % REPO)
+        open(fp, "w").write(txt)
+    cfg = os.path.join(HARNESS_SRC, ".cargo", "config.toml")
+    if os.path.exists(cfg):
+        open(cfg, "w").write('[net]\noffline = true\n[build]\ntarget-dir = "%s"\n' % TARGET)
 GUARD = "layout21_verif"
 NCPU = os.cpu_count() or 4
 
@@ -66,7 +104,7 @@ def run_translators():
 
 def coq_make(targets, timeout=3000):
     """make the given .vo targets (paths relative to coq/). Returns (ok, log)."""
-    with Lock("coq"):
+    with Lock("coq" if not ALT else "coq-" + os.path.basename(ALTDIR)):
         rc, out = sh("./mk.sh", cwd=COQ, timeout=120)
         if rc != 0:
             return False, out
@@ -168,8 +206,8 @@ def build_harness(bins, timeout=1800):
         cmd = ["cargo", "build", "--offline"]
         for b in bins:
             cmd += ["--bin", b]
-        rc, out = sh(cmd, cwd=os.path.join(VERIF, "harness"),
-                     env={"RUSTFLAGS": "--cfg %s" % GUARD, "CARGO_TARGET_DIR": os.path.join(WORK, "target")}, timeout=timeout)
+        rc, out = sh(cmd, cwd=HARNESS_SRC,
+                     env={"RUSTFLAGS": "--cfg %s" % GUARD, "CARGO_TARGET_DIR": TARGET}, timeout=timeout)
         return rc == 0, out
 
 def harness(subcmd, cases, timeout=1200, chunk=None):
@@ -294,11 +332,12 @@ class Check:
         self.seed = seed
         self.rng = random.Random(("%s-%d" % (pid, seed)).encode())
         self.t0 = time.time()
-        self.rundir = os.path.join(WORK, "run", pid)
+        prepare_alt()
+        self.rundir = os.path.join(ALTDIR, "run", pid)
         if os.path.isdir(self.rundir):
             shutil.rmtree(self.rundir, ignore_errors=True)
         os.makedirs(self.rundir, exist_ok=True)
-        self.replaydir = os.path.join(WORK, "replay")
+        self.replaydir = os.path.join(ALTDIR, "replay")
         os.makedirs(self.replaydir, exist_ok=True)
         self.cov = {"evaluations": 0, "distinct_nontrivial": 0, "rule": "", "samples": [],
                     "traces_validated_against_impl": 0, "obligations": 0, "discharged": 0,
@@ -404,8 +443,8 @@ class Check:
             self.cov.pop("discharged", None)
             self.cov["evaluations"] = max(1, self.cov.get("evaluations", 0))
             self.cov["distinct_nontrivial"] = max(2, self.cov.get("distinct_nontrivial", 0)) if self.cov.get("distinct_nontrivial", 0) >= 2 else self.cov.get("distinct_nontrivial", 0)
-        os.makedirs(os.path.join(VERIF, "evidence"), exist_ok=True)
-        with open(os.path.join(VERIF, "evidence", "%s.json" % self.pid), "w") as f:
+        os.makedirs(EVIDENCE_DIR, exist_ok=True)
+        with open(os.path.join(EVIDENCE_DIR, "%s.json" % self.pid), "w") as f:
             json.dump(ev, f, indent=1, default=str)
         known = [k for k in load_known() if k.get("kind") == "finding" and k.get("property") == self.pid]
         for k in known:
